@@ -91,7 +91,7 @@ def main():
      "hooks": {
        "guard": "cargo feature verif_hooks (off by default)",
        "enable": "the simulator crate /verif/sim depends on findutils = { path = \"/repo\", features = [\"verif_hooks\"] }; ./check rebuilds it from /repo's working tree before every run",
-       "baseline_off_cmd": "cd /repo && cargo test --workspace --no-fail-fast --offline",
+       "baseline_off_cmd": "cd /repo && if cargo nextest --version >/dev/null 2>&1; then cargo nextest run --workspace --no-fail-fast --test-threads 8 --offline; else cargo test --workspace --no-fail-fast --offline; fi",
        "source_commits": hooks,
        "add_only": True,
      },
